@@ -9,8 +9,16 @@ namespace ThriftVerif.Idl
 
 abbrev Bytes := List UInt8
 
-/-- ASCII string literal as bytes (used for keyword tables; reduces by `decide`). -/
+/-- ASCII string as bytes. (Kernel reduction of `str "…"` re-walks the string and gets slow
+inside recursive functions; tables and theorem statements use the `b!"…"` literal below, and
+`str` only where a `String` fact has to be compared.) -/
 def str (s : String) : Bytes := s.toList.map (fun c => UInt8.ofNat c.toNat)
+
+/-- `b!"abc"` elaborates to the explicit byte list `[97, 98, 99]` (UTF-8 bytes of the literal). -/
+macro:max "b!" s:str : term => do
+  let bs := s.getString.toUTF8.toList
+  let elems := bs.map fun b => Lean.Syntax.mkNumLit (toString b.toNat)
+  `(([$(elems.toArray),*] : List UInt8))
 
 def isDigit (c : UInt8) : Bool := 48 ≤ c && c ≤ 57
 def isHexDigit (c : UInt8) : Bool := isDigit c || (65 ≤ c && c ≤ 70) || (97 ≤ c && c ≤ 102)
